@@ -172,13 +172,18 @@ def main():
                                   "(remove_all_descendants' work-list loop: no verdict within 10 min even for concrete arguments), trees with "
                                   "more than 3 nodes, sequences of more than one operation after the pre-state")
     else:
-        chk.cov["rule"] = ("one harness per concrete shape (3-node chain, siblings and an index-reuse layout for K=2%s), traversal (DfsPre, DfsEdge, "
+        chk.cov["rule"] = ("(i) symbolic start: one harness per concrete shape (3-node chain, siblings and an index-reuse layout for K=2%s), traversal (DfsPre, DfsEdge, "
                            "Bfs) and step j in 1..%d: start node symbolic over all nodes, a symbolic skip_subtree decision after every earlier "
-                           "item; non-trivial = harness verified") % ("; all shapes <= 3 nodes K=2 and six K=3 shapes" if t == "thorough" else "", 2)
+                           "item (step 2: thorough tier only); (ii) complete traversals: one harness per shape, traversal, start node and skip schedule "
+                           "(no skip, every single position, skip_subtree called twice at every position; thorough: every subset of positions) "
+                           "with the schedule enumerated and the payloads symbolic; (iii) index-order iterators, num_terminals, edge_iter count "
+                           "per shape; non-trivial = harness verified") % ("; all shapes <= 3 nodes K=2 and six K=3 shapes" if t == "thorough" else "", 2)
         chk.cov["explanation"] = ("Kani/CBMC model-checks the compiled traversal code: the j-th returned item (index, depth, remaining-sibling counter "
                                   "/ src, label, dest), None when exhausted, and size_hint before and after every call must equal the constants the "
                                   "generator derived from the shape (children by ascending label, skip omits the descendants of the last item). "
-                                  "OUTSIDE the bound: items beyond the two leading ones of a traversal (three calls did not finish in 10 min; "
+                                  "For complete traversals the skip schedule is enumerated, not symbolic (a symbolic decision followed by more than one call "
+                                  "does not finish), so there the solver quantifies over payloads only. "
+                                  "OUTSIDE the bound with a symbolic start/skip: items beyond the two leading ones (three calls did not finish in 10 min; "
                                   "DfsEdge: beyond the first, two calls exhaust 62 GB), the loop-based metrics num_nodes / depth / path_to_node / "
                                   "index iterators (no verdict in 400 s), depth_stats")
     chk.assumptions += ["slab is replaced by a heap-free model for CBMC; every counterexample is re-run natively on the real slab (dev and release)",
